@@ -6,6 +6,7 @@ CONSTANTS
   Modes = {"None"}
   Moves = {}
   Damages = {}
+  Injects = {}
   Budget = 0
   MaxChunks = 0
   Sweeps <- NoSweep
